@@ -193,71 +193,60 @@ func (c *FnCtx) wrapInt(st *State, v *Term, t types.Type) *Term {
 	return v
 }
 
-// isCounterStep: x +/- const where x is a load of a local variable that is only ever assigned constants or
-// itself plus/minus a constant (loop counters, sequence numbers).
+// isCounterStep: the statement  x++ / x-- / x += 1  for any variable, field or pointer target x: the sum is computed from
+// a load of x and stored straight back to x and used nowhere else. Such unit steps cannot wrap around within any feasible
+// running time, provided x starts in a sane range; an arithmetic result that is used as a value (index, bound, length)
+// is NOT exempt.
 func isCounterStep(b *ssa.BinOp) bool {
 	if b.Op != token.ADD && b.Op != token.SUB {
 		return false
 	}
-	var ld *ssa.UnOp
-	if u, ok := b.X.(*ssa.UnOp); ok && u.Op == token.MUL {
-		if _, isC := b.Y.(*ssa.Const); isC {
-			ld = u
-		}
-	}
-	if ld == nil {
+	k, isC := b.Y.(*ssa.Const)
+	if !isC || k.Value == nil {
 		return false
 	}
-	a, ok := ld.X.(*ssa.Alloc)
-	if !ok {
-		// *p + c where p is a pointer parameter (a counter handed down by the caller, e.g. *cnt++)
-		if inner, ok := ld.X.(*ssa.UnOp); ok && inner.Op == token.MUL {
-			if pa, ok := inner.X.(*ssa.Alloc); ok {
-				refs := pa.Referrers()
-				if refs != nil {
-					nst := 0
-					isParam := false
-					for _, r := range *refs {
-						if st, ok := r.(*ssa.Store); ok && st.Addr == pa {
-							nst++
-							_, isParam = st.Val.(*ssa.Parameter)
-						}
-					}
-					if nst == 1 && isParam {
-						if k, ok := b.Y.(*ssa.Const); ok && k.Value != nil && (k.Int64() == 1 || k.Int64() == -1) {
-							return true
-						}
-					}
-				}
-			}
-		}
+	if v := k.Int64(); v != 1 && v != -1 {
 		return false
 	}
-	refs := a.Referrers()
+	ld, ok := b.X.(*ssa.UnOp)
+	if !ok || ld.Op != token.MUL {
+		return false
+	}
+	refs := b.Referrers()
 	if refs == nil {
 		return false
 	}
+	stores := 0
 	for _, r := range *refs {
 		switch x := r.(type) {
 		case *ssa.Store:
-			if x.Addr != a {
-				return false // address stored somewhere
-			}
-			switch v := x.Val.(type) {
-			case *ssa.Const:
-			case *ssa.BinOp:
-				u, ok := v.X.(*ssa.UnOp)
-				_, isC := v.Y.(*ssa.Const)
-				if !(ok && isC && u.Op == token.MUL && u.X == a && (v.Op == token.ADD || v.Op == token.SUB)) {
-					return false
-				}
-			default:
+			if x.Val != b || !sameAddr(x.Addr, ld.X) {
 				return false
 			}
-		case *ssa.UnOp, *ssa.DebugRef:
+			stores++
+		case *ssa.DebugRef:
 		default:
-			return false // escapes
+			return false
 		}
 	}
-	return true
+	return stores == 1
+}
+
+// sameAddr: two address expressions denote the same location (same register, or the same field / pointer target
+// reached through loads of the same variable).
+func sameAddr(a, b ssa.Value) bool {
+	if a == b {
+		return true
+	}
+	switch x := a.(type) {
+	case *ssa.FieldAddr:
+		y, ok := b.(*ssa.FieldAddr)
+		return ok && x.Field == y.Field && sameAddr(x.X, y.X)
+	case *ssa.UnOp:
+		y, ok := b.(*ssa.UnOp)
+		return ok && x.Op == token.MUL && y.Op == token.MUL && sameAddr(x.X, y.X)
+	case *ssa.Alloc, *ssa.Parameter, *ssa.Global:
+		return a == b
+	}
+	return false
 }
